@@ -18,6 +18,10 @@ CHECKS = {
             "hostile-input runtime monitor: recover around every public entry point, driver-side watchdog for non-termination, independent line-table check of every reported error position",
             "Valid generated programs, token-level mutations of them over the full token alphabet (every keyword and builtin name in every position), raw bytes and directed probes are fed to parser.ParseFile, File.String, Compiler.Compile+Bytecode+RemoveDuplicates, Script.Compile under random configurations (module maps incl. the input as its own module, 0/3/1000/1030 predeclared variables, file import, const-object limit) and as a module body. A panic or a watchdog firing is a violation; every position in a returned ErrorList/CompilerError is recomputed from an independent line table. Held on the inputs listed in evidence.",
             "Inputs <= 64 KiB. Non-termination = 90 s without progress on a case that normally takes milliseconds."),
+    "C06": ("exploration",
+            "threshold and conservation monitors: allocation budgets swept 0..A+3 with A counted independently by the VM probe (instruction classification, not the VM's counter); reachable-value walk under small MaxStringLen/MaxBytesLen with boundary probes per producer; recursion probes through RunContext",
+            "(a) For generated programs the unlimited run is observed by the probe, which counts tracked allocations by classifying completed instructions; every budget N = 0..A+3 and -1 is then run: below A the run must stop with ErrObjectAllocLimit having completed at most N allocations, from A on it must equal the unlimited run. (b) With small string/bytes maxima every core-language producer is driven across the boundary; over-long results must be refused with the limit sentinel, fitting ones produced, and after every run all values reachable from the globals are walked. (c) Recursion beyond the frame limit must end in ErrStackOverflow, beyond the operand stack in some error. Held on the cases listed in evidence.",
+            "Trusted: the probe's instruction classification as the independent allocation count. Process-wide limits are changed only inside single-threaded workers."),
     "C09": ("exploration",
             "history-over-one-object runtime monitor: shadow snapshot of the immutable value taken through Compiled.Get after its creation and after every operation of a random sequence, each operation being its own RunContext on the same Compiled",
             "Immutable values of four origins (immutable expression, freeze, module export, builtin-module table) built from fresh nested literals are subjected to random sequences of up to 12 operations on themselves and on everything derived from them; after every step the snapshot (whole tree for frozen values, immutable spine for shallow ones) must equal the first one. freeze is additionally checked for equality with its argument, no mutable container reachable from the result, and independence from later writes to the argument. Held on the sequences listed in evidence.",
